@@ -1,0 +1,14 @@
+//go:build verif
+
+package collect
+
+// SimHeapAlloc, when set by the simulation harness, replaces the heap reading
+// used by checkAlloc so that memory pressure is a controlled input.
+var SimHeapAlloc func(i *InMemCollector, real uint64) uint64
+
+func simHeapAlloc(i *InMemCollector, v uint64) uint64 {
+	if SimHeapAlloc != nil {
+		return SimHeapAlloc(i, v)
+	}
+	return v
+}
